@@ -133,7 +133,7 @@ def save_replay(src, prop, unit, tag):
     return dst
 
 
-def replay_unit(build, prop, unit_cfg, path, workdir, timeout=180):
+def replay_unit(build, prop, unit_cfg, path, workdir, timeout=180, raw=False):
     """-> 'pass' | 'fail' | 'hang' | 'crash' | 'error', output"""
     binp = build.get(unit_cfg["mod"], unit_cfg["pkg"], unit_cfg.get("race", False))
     if not binp:
@@ -141,7 +141,8 @@ def replay_unit(build, prop, unit_cfg, path, workdir, timeout=180):
     env = goenv()
     env["VERIF_REPLAY"] = os.path.abspath(path)
     env["VERIF_OUT"] = workdir
-    env["VERIF_KNOWN"] = ",".join(k["id"] for k in known_findings(prop))
+    # raw: committed reproductions are replayed without the known-finding exclusions, as plain regressions
+    env["VERIF_KNOWN"] = "" if raw else ",".join(k["id"] for k in known_findings(prop))
     cmd = [binp, "-test.run", "^%s$" % unit_cfg["test"], "-test.timeout", "%ds" % timeout, "-test.v"]
     rc, out, _ = run_proc(cmd, env, os.path.join(VERIF, unit_cfg["mod"], unit_cfg["pkg"]), timeout + 30, None if unit_cfg.get("race") else 24)
     if rc == 0 and "REPLAY-PASS" in out:
@@ -361,7 +362,7 @@ def check(prop, tier, seed, cfg, build, workdir, t0):
             continue
         rel = os.path.relpath(path, VERIF)
         kf = [k for k in known if k["regress"] == rel]
-        st, out = replay_unit(build, prop, u, path, workdir)
+        st, out = replay_unit(build, prop, u, path, workdir, raw=True)
         regress_run += 1
         if st == "pass":
             if kf:
